@@ -65,7 +65,7 @@ func (t *Cmd) Path() string {
 type App struct {
 	Root    *Cmd
 	Policy  flag.ErrorHandling
-	Version bool // declares app.Version("V version", "ver-1.2.3")
+	Version bool // declares app.Version(<names>, VersionText)
 	Builtin bool // declare with the built-in Bool/String/Strings types instead of recording custom types
 	// ArgsFirst: every command declares its arguments before its options
 	ArgsFirst bool
@@ -79,6 +79,9 @@ type App struct {
 func Single(p *Prog) *App {
 	return &App{Root: &Cmd{Aliases: []string{"app"}, Prog: p, Action: Beh{Kind: BehReturn}}, Policy: flag.ContinueOnError}
 }
+
+// VersionText is the version string declared by applications with App.Version set (it contains a % on purpose)
+const VersionText = "ver-1.2.3 (100% go, %d %s)"
 
 // RuntimeErrorMarker stands in PanVals for a panic raised by the Go runtime (the value itself is created by the runtime)
 const RuntimeErrorMarker = "<runtime error: assignment to entry in nil map>"
@@ -166,6 +169,9 @@ func PresetEnv(maxOpts int) {
 
 // EnvValue is the value of a set environment variable backing an option
 func EnvValue(o *OptDecl) string {
+	if o.EnvVal != "" {
+		return o.EnvVal
+	}
 	if o.Flag {
 		return "true"
 	}
@@ -190,7 +196,7 @@ func buildApp(a *App, o *Obs, setEnv *[]string) (*cli.Cli, map[int]*recs, func(c
 		app.ErrorHandling = a.Policy
 	}
 	if a.Version {
-		app.Version(a.Root.VersionOptNames(), "ver-1.2.3")
+		app.Version(a.Root.VersionOptNames(), VersionText)
 	}
 	all := map[int]*recs{}
 	var mkHook func(t *Cmd, tag string, b Beh, snapshot bool) func()
